@@ -132,8 +132,8 @@ def run(ctx):
             lhs = pvi.of_operand(t["args"][0])
             rhs = M.render(M.peel(pvi.of_operand(t["args"][1])))
             dest = M.Place(t["dest"])
-            ok = lhs.kind == "phi" and lhs.a == "total_gas" and re.search(r" as Ok\)\.0\.1$", rhs) is not None
-            ctx.ob("R5", "node-gas-added#%d" % n, ok, inner.loc(bb), "total_gas.saturating_add(%s)" % rhs[:120], inner)
+            ok = lhs.kind == "phi" and lhs.a is not None and re.search(r" as Ok\)\.0\.1$", rhs) is not None
+            ctx.ob("R5", "node-gas-added#%d" % n, ok, inner.loc(bb), "%s.saturating_add(%s)" % (M.render(lhs), rhs[:120]), inner)
         oks = set()
         for bb in range(len(inner.blocks)):
             for a in C.conditions(prog, inner, bb):
